@@ -418,6 +418,25 @@ func c11R4(c *Ctx, r *Report) {
 	for _, st := range storesToField(fn, "TSIG", "OrigId") {
 		problems = append(problems, fmt.Sprintf("%s: tsigBuffer rewrites the TSIG's original ID before using it: the digest no longer covers the ID the signer recorded (an original ID of 0 relayed under another ID fails, a MAC over the transmitted ID is accepted)", c.pos(st.Pos())))
 	}
+	// tsigBuffer serves the verifier too: it builds the digest input from the TSIG it is given and stores nothing into it
+	// (a default filled in here would be digested in place of the value that was received)
+	{
+		var ps []string
+		allInstrs(fn, func(in ssa.Instruction) {
+			st, ok := in.(*ssa.Store)
+			if !ok {
+				return
+			}
+			fa, ok := st.Addr.(*ssa.FieldAddr)
+			if !ok || fa.X != rr {
+				return
+			}
+			if name := fieldNameOf(fa); name != "OrigId" {
+				ps = append(ps, fmt.Sprintf("%s: tsigBuffer stores into rr.%s: on the verifying side the digest then covers the stored value, not the %s that was received (an altered field that the store happens to restore goes unnoticed)", c.pos(st.Pos()), name, name))
+			}
+		})
+		r.check(len(ps) == 0, "C11.R4.digest-input", "tsigBuffer:no-defaults", c.pos(fn.Pos()), "the TSIG is digested as given", "%s", strings.Join(ps, "; "))
+	}
 	r.check(len(problems) == 0, "C11.R4.digest-input", "tsigBuffer:orig-id", c.pos(fn.Pos()), "msgbuf[0:2] = rr.OrigId", "%s", strings.Join(problems, "; "))
 	// variables selection
 	problems = nil
